@@ -10,14 +10,14 @@ open SquidModel SquidModel.Header
 
 /-- `head` returns `.ok` only along one path -/
 theorem head_ok_inv {cfg : Cfg} {url : Bytes → Bytes → Option UrlView} {buf rest : Bytes} {es : List Entry} {cl : Int}
-    {vmaj vmin : Nat} {m u : Bytes} (h : head cfg url buf = .ok rest es cl vmaj vmin m u) :
+    {vmaj vmin : Nat} {m u : Bytes} {keep : Bool} (h : head cfg url buf = .ok rest es cl vmaj vmin m u keep) :
     (Http1.parse cfg.h1 {} buf).stage = .done ∧ (Http1.parse cfg.h1 {} buf).status = 200 ∧
     rest = (Http1.parse cfg.h1 {} buf).buf ∧ vmaj = (Http1.parse cfg.h1 {} buf).vmaj ∧
     vmin = (Http1.parse cfg.h1 {} buf).vmin ∧ m = (Http1.parse cfg.h1 {} buf).method ∧
     u = (Http1.parse cfg.h1 {} buf).uri ∧
     ∃ hr, headerOf cfg (Http1.parse cfg.h1 {} buf) = .ok hr ∧ es = hr.entries ∧
       cl = (if vmaj ≥ 1 then getInt64 hr.entries idContentLength else 0) ∧
-      checkEntityFraming hr vmaj vmin m cl = 0 := by
+      checkEntityFraming cfg.rejectNonGet09 hr vmaj vmin m cl = 0 := by
   unfold head at h
   generalize Http1.parse cfg.h1 {} buf = st at h ⊢
   dsimp only at h
@@ -25,7 +25,7 @@ theorem head_ok_inv {cfg : Cfg} {url : Bytes → Bytes → Option UrlView} {buf 
   all_goals first
     | (simp at h; done)
     | (simp only [Head.ok.injEq] at h
-       obtain ⟨rfl, rfl, rfl, rfl, rfl, rfl, rfl⟩ := h
+       obtain ⟨rfl, rfl, rfl, rfl, rfl, rfl, rfl, rfl⟩ := h
        rename_i hr hhdr _ _ _ _ _ _
        refine ⟨by simp_all, by simp_all, rfl, rfl, rfl, rfl, rfl, hr, hhdr, rfl, by simp_all, by simp_all⟩)
 
@@ -177,7 +177,7 @@ theorem filterMap_copy_false (es : List Entry) : es.filterMap (copyFraming false
 
 /-- the framing fields written upstream for an accepted head -/
 theorem forwarded_framing_of_head {cfg : Cfg} {url : Bytes → Bytes → Option UrlView} {buf rest : Bytes} {es : List Entry}
-    {cl : Int} {vmaj vmin : Nat} {m u : Bytes} (h : head cfg url buf = .ok rest es cl vmaj vmin m u) :
+    {cl : Int} {vmaj vmin : Nat} {m u : Bytes} {keep : Bool} (h : head cfg url buf = .ok rest es cl vmaj vmin m u keep) :
     (chunked es = true →
       forwardedFraming es (chunkedRequest (bodyKind es cl) cl) = [⟨idTransferEncoding, nameOf idTransferEncoding, chunkedToken⟩]) ∧
     (chunked es = false →
